@@ -115,12 +115,20 @@ def wrappers(case):
             if x not in order:
                 order.append(x)
 
+    def et(v):
+        # the same instant in the coarsest unit that represents it exactly (mixed units inside one graph)
+        if v > 0 and v % 10 ** 6 == 0:
+            return EventTime(v // 10 ** 6, EventTime.Unit.S)
+        if v > 0 and v % 1000 == 0:
+            return EventTime(v // 1000, EventTime.Unit.MS)
+        return EventTime(v, EventTime.Unit.US)
+
     def profile(k):
         return WorkProfile(
             name="p%d" % k,
             execution_strategies=ExecutionStrategies([
                 ExecutionStrategy(resources=Resources({Resource(name="CPU", _id="any"): 1}), batch_size=1,
-                                  runtime=EventTime(wt.get(k, 1), EventTime.Unit.US)),
+                                  runtime=et(wt.get(k, 1))),
                 # a faster strategy: the wrappers must use the slowest one
                 ExecutionStrategy(resources=Resources({Resource(name="CPU", _id="any"): 2}), batch_size=1,
                                   runtime=EventTime(max(wt.get(k, 1) - 1, 0), EventTime.Unit.US)),
